@@ -595,7 +595,8 @@ Section Thm.
     set (s13 := do_items (ap_items p') s12) in *.
     set (s14 := opt_step step_required (a_required a) s13) in *.
     set (s15 := step_ite (ap_if p') (ap_then p') (ap_else p') s14) in *.
-    assert (D15 : st_dev s15 = []) by exact D.
+    assert (D15 : st_dev s15 = []).
+    { unfold result_of in D. cbn [r_dev] in D. apply app_eq_nil in D. tauto. }
     pose proof (dev_step_ite_nil _ _ _ _ D15) as D14. fold s14 in D14.
     pose proof (required_dev _ _ D14) as D13. fold s13 in D13.
     pose proof (do_items_dev _ _ D13) as D12. fold s12 in D12.
